@@ -34,6 +34,12 @@ var (
 )
 
 func report(kind string, in []byte, detail string) {
+	if run == nil {
+		if vlib.FuzzFail != nil {
+			vlib.FuzzFail(kind + ": " + detail)
+		}
+		return
+	}
 	kindMu.Lock()
 	kindSeen[kind]++
 	n := kindSeen[kind]
@@ -276,6 +282,17 @@ func main() {
 				r.Count("wellformed_archives", 1)
 			}
 		})
+		// native fuzzing as an additional input generator (thorough tier): failing inputs are re-run through
+		// the deterministic oracle above, which is what reports them
+		if !r.Quick() {
+			inputs, execs, ok := vlib.GoFuzz("checks/c03", "FuzzParse", 60*time.Second)
+			r.Set("native_fuzzing", map[string]any{"target": "FuzzParse", "ran": ok, "last_progress_line": execs, "failing_inputs": len(inputs)})
+			for _, args := range inputs {
+				if len(args) == 1 {
+					checkInput(args[0])
+				}
+			}
+		}
 		r.Set("diag_final_newline_rule_differs", atomic.LoadInt64(&diagFinalNL))
 	})
 }
